@@ -52,7 +52,17 @@ def _tr_sq(e):
     return e * e
 
 
-TRANSFORMS = {'sq': _tr_sq}
+def _tr_half(e):
+    """a change of units (f(1) = 0.5): only used by oracle-only cases, the model's plateau factor is an exact one"""
+    return e * 0.5
+
+
+def _tr_db(e):
+    """an envelope in other units with f(0) != 0 as well"""
+    return 2.0 * e + 0.25
+
+
+TRANSFORMS = {'sq': _tr_sq, 'half': _tr_half, 'db': _tr_db}
 
 
 def mk(cfg, fs):
